@@ -351,6 +351,10 @@ def gen_C02(rng, tier):
         count(dist["realistic"], kind)
     # total sizes around 2^30, 2^31 and 2^32 backed by that much (sparse, zero) memory: only the header and the last 8 bytes
     # are written; the model side is the closed form of C02_load_sparse
+    # end-tag-shaped tags before the end of the region: the reported addresses and size come from the header alone
+    for tags in ([E.end_tag()], [E.end_tag(), E.end_tag()], [E.t_cmdline("a"), E.end_tag(), E.t_cmdline("b")],
+                 [E.tag(0, b"12345678")], [E.t_cmdline("x"), E.tag(0, b"", size=8), E.tag(0, b"", size=8)]):
+        cases.append("mbiwalk " + hx(valid_mem(E.mbi(tags))))
     # loading a region of very many tags (load itself must not depend on their number)
     for n in (1000, 4095, 70000):
         cases.append("bigwalk %d %s" % (n, hx(E.tag(0x1337, b""))))
@@ -596,6 +600,12 @@ def gen_C10(rng, tier):
                 for ck in (c, (c + 1) & 0xFFFFFFFF, rng.getrandbits(32)):
                     cases.append("verify " + hx(E.u32(magic) + E.u32(arch) + E.u32(length) + E.u32(ck)))
                     dist["verify"] = dist.get("verify", 0) + 1
+    # Header::set_size of a basic header that already holds a length and a checksum: the checksum is recomputed for the new length
+    import test_build_domains as TB2
+    g2 = TB2.Gen(rng.getrandbits(32))
+    nb = [c for c in TB2.gen_newboxed(g2, 1) if c.startswith("newboxed 4 ")]
+    cases += nb[::3]
+    dist["set_size_of_basic_headers"] = len(nb[::3])
     # declared lengths around 2^30, 2^31 and 2^32 backed by that much (sparse, zero) memory; model: C10_load_sparse
     for length in [0x3FFFFFF8, 0x40000000, 0x7FFFFFF0, 0x7FFFFFF8, 0x7FFFFFFC, 0x80000000, 0x80000004, 0x80000008, 0x80000010, 0x80000018, 0xC0000000, 0xFFFFFFE8, 0xFFFFFFF0, 0xFFFFFFF8, 0xFFFFFFFC, 0xFFFFFFFF]:
         for arch in (0, 4):
@@ -793,6 +803,13 @@ def gen_C15(rng, tier):
             t = (E.u16(typ) + E.u16(rng.choice([0, 1])) + E.u32(s) + bytes(body))[:n]
             cases.append("hdr " + hx(E.header([t, E.htag(6, 0, b"")])))
             dist["builtin_header_kinds"] = dist.get("builtin_header_kinds", 0) + 1
+    # RSDP v2 tables whose stored length is around the 36 bytes the tag holds (up to the tag size and beyond), followed by
+    # different tags and dirty padding: the checksum never takes a byte behind the table into account
+    for ln in list(range(30, 50)) + [0, 20, 0xFFFFFFFF]:
+        for nxt in (E.t_cmdline("n"), E.tag(0x21, b"\xab" * 8)):
+            d = E.rsdp_v2(b"RSD PTR ", b"OEMID ", 2, 0x1000, ln, 0x2000)
+            cases.append(mbi_case(dirty_padding(E.mbi([E.t_acpi_v2(d), nxt]), rng, 1.0)))
+            dist["rsdp_v2_lengths"] = dist.get("rsdp_v2_lengths", 0) + 1
     # what a typed view hands out lies inside the tag: palettes against the colour count, ELF tables against count x size
     cases += palette_family(dist)
     elf = [c for c in gen_C19(random.Random(rng.getrandbits(32)), tier)[0] if c.startswith("mbi ")]
@@ -860,7 +877,7 @@ def neutralise(typ, body):
 
 
 PROPS.update({
-    "C15": dict(gen=gen_C15, configs=["dev", "rel"], judge=judge_projection(["cast", "get", "load", "get_user", "ref_from_slice", "information_request_tag", "tags", "framebuffer", "elf", "elf_section", "elf_end"]), both_placements=True,
+    "C15": dict(gen=gen_C15, configs=["dev", "rel"], judge=judge_projection(["cast", "get", "load", "get_user", "ref_from_slice", "information_request_tag", "tags", "framebuffer", "elf", "elf_section", "elf_end", "rsdp_v2", "efi_nth", "efi_hist"]), both_placements=True,
                 assumptions=["user-defined types of the harness (dom_cast.rs) declare BASE_SIZE = offset of the tail and dst_len = (size - BASE_SIZE)/element size"]),
 })
 
@@ -1187,6 +1204,13 @@ def gen_C04(rng, tier):
         if r.random() < 0.2:
             tags.insert(r.randrange(len(tags) + 1), g.custom())
         cases.append(mbi_case(dirty_padding(E.mbi(tags), rng, 0.7)))
+    # RSDP v2 tables whose stored length is around the 36 bytes the tag holds (up to the tag size and beyond), followed by
+    # different tags and dirty padding: the checksum never takes a byte behind the table into account
+    for ln in list(range(30, 50)) + [0, 20, 0xFFFFFFFF]:
+        for nxt in (E.t_cmdline("n"), E.tag(0x21, b"\xab" * 8)):
+            d = E.rsdp_v2(b"RSD PTR ", b"OEMID ", 2, 0x1000, ln, 0x2000)
+            cases.append(mbi_case(dirty_padding(E.mbi([E.t_acpi_v2(d), nxt]), rng, 1.0)))
+            dist["rsdp_v2_lengths"] = dist.get("rsdp_v2_lengths", 0) + 1
     # framebuffer tags without any colour information (size 32) for every type byte; with 1..5 bytes of it for the known types
     for b in list(range(0, 8)) + [0x7F, 0x80, 0xFE, 0xFF]:
         cases.append(mbi_case(E.mbi([E.t_framebuffer(0x3000, 7, 8, 9, 24, b, b"", 0)])))
@@ -1242,7 +1266,9 @@ def gen_C05(rng, tier):
             n = max(8, (min(s, 256) + 7) // 8 * 8)
             body = bytearray(marker(n - 8, start=typ + s))
             if typ == 6 and len(body) >= 8:
-                body[0:8] = E.u32(24) + E.u32(0)
+                # entry sizes other than 24 (also ones that divide the payload) are rejected
+                es = 24 if s % 5 else rng.choice([0, 8, 12, 16, 32, 48, max(s - 16, 1), 0xFFFFFFFF])
+                body[0:8] = E.u32(es) + E.u32(0)
             if typ == 17 and len(body) >= 8:
                 body[0:8] = E.u32(rng.choice([40, 48, 8])) + E.u32(1)
             if typ == 9 and len(body) >= 12:
